@@ -166,12 +166,28 @@ def held_objects(tier, rng):
                     d = element_action(70 + step, 'DELETE', [ref('storyID', sid)], [[ref('itemID', rng.choice(its))]])
                 else:
                     d = story_send(70 + step, sid, body=[p('resent'), E('storyItem', E('itemID', text='s%d' % step))])
+                if rng.random() < 0.35:
+                    # the same story again with other timing data (its ID and place stay)
+                    new = rich_story(rng, sid)
+                    d = rng.choice([story_replace(70 + step, sid, [new]),
+                                    story_send(70 + step, sid, body=[p('resent'), E('storyItem', E('itemID', text='s%d' % step))],
+                                               post=[payload(duration=rng.choice(DURS))])])
                 t = to_text(d)
                 msgs.append(t)
                 try:
                     ro += MosFile.from_string(t)
                 except Exception:
                     continue
+                # the live object reports what a freshly parsed copy of its document reports
+                n += 1
+                live, reread = accessors.report_obj(ro), accessors.report(str(ro))
+                if live != reread:
+                    la, lb = live.split(' '), reread.split(' ')
+                    k = next((k for k, (x, y) in enumerate(zip(la, lb)) if x != y), min(len(la), len(lb)))
+                    vio.append({'what': 'after a %s the running-order object reports %r where a freshly parsed copy of its own document reports %r'
+                                        % (d[3].tag, ' '.join(la[max(0, k - 2):k + 1]), ' '.join(lb[max(0, k - 2):k + 1])),
+                                'case': {'kind': 'held', 'ro': ro_text, 'msgs': list(msgs)}, 'impl': live[:300], 'expected': reread[:300]})
+                    break
                 fresh = {id(f.xml): f for f in ro.stories}
                 for st in held:
                     f = fresh.get(id(st.xml))
@@ -202,6 +218,8 @@ def replay_held(case):
                 ro += MosFile.from_string(t)
             except Exception:
                 continue
+            if accessors.report_obj(ro) != accessors.report(str(ro)):
+                return {'violation': True, 'live': accessors.report_obj(ro)[:400], 'reread': accessors.report(str(ro))[:400]}
             fresh = {id(f.xml): f for f in ro.stories}
             for st in held:
                 f = fresh.get(id(st.xml))
@@ -262,7 +280,7 @@ class ReportCheck:
             if len(samples) < 2 and len(t) < 2500 and meta.get('kind') != 'initial':
                 samples.append({'ro': t, 'report': rep[:800]})
         extra = {}
-        if self.pid in ('C15', 'C17'):
+        if self.pid in ('C15', 'C16', 'C17'):
             hn, hvio = held_objects(tier, rng)
             vio += hvio
             extra['held_story_comparisons'] = hn
